@@ -124,6 +124,49 @@ def ground_callsites(pr, repo):
                   detail='Protonate.trigonal, 1-bond branch: "else: axis = avec.orthogonal()" is reached by a backbone N after a chain break',
                   replay=CHAIN_BREAK_REPLAY % {'verif': os.path.dirname(os.path.dirname(os.path.abspath(__file__)))}))
 
+    # BO: an atom's bond list is in the order in which the box search met the pairs, which depends on the cells the atoms fall into
+    # (the pose).  A geometric result may therefore take `X.bonded_atoms[k]` only where X has a single neighbour: a hydrogen, i.e.
+    # inside `if X.element == 'H':`.  (propka.ligand types hetero atoms - outside the pKa claim for amino-acid structures.)
+    unguarded, guarded_n = [], 0
+    for m in repo.all_modules():
+        if m.name in ('propka.ligand', 'propka.protonate'):
+            # ligand: hetero-atom typing.  protonate: the placement routines index the bond list of the atom they build on (one
+            # neighbour: unambiguous; two: used symmetrically; the one-neighbour branch looks at the NEIGHBOUR's list - D16); their
+            # order dependence is not classified by this census (stated in the assumptions)
+            continue
+        for fname, fi in list(m.functions.items()) + [(c.name + '.' + k, v) for c in m.classes.values() for k, v in c.methods.items()]:
+            parents = {}
+            for n in _ast.walk(fi.node):
+                for ch in _ast.iter_child_nodes(n):
+                    parents[id(ch)] = n
+            for n in _ast.walk(fi.node):
+                if not (isinstance(n, _ast.Subscript) and isinstance(n.value, _ast.Attribute) and n.value.attr == 'bonded_atoms'
+                        and isinstance(n.slice, _ast.Constant) and isinstance(n.slice.value, int)):
+                    continue
+                recv = _ast.unparse(n.value.value)
+                ok, cur = False, n
+                while id(cur) in parents:
+                    par = parents[id(cur)]
+                    if isinstance(par, _ast.If) and any(cur is b for b in par.body):
+                        for t in _ast.walk(par.test):
+                            if (isinstance(t, _ast.Compare) and len(t.ops) == 1 and isinstance(t.ops[0], _ast.Eq)
+                                    and _ast.unparse(t.left) == recv + '.element' and isinstance(t.comparators[0], _ast.Constant)
+                                    and t.comparators[0].value == 'H'):
+                                ok = True
+                    cur = par
+                if ok:
+                    guarded_n += 1
+                else:
+                    unguarded.append('%s.%s: %s' % (m.name, fname, _ast.unparse(n)))
+    pr.add(Ground('BO: census of `X.bonded_atoms[k]` sites outside the hetero-atom typing', guarded_n + len(unguarded) > 0, kind='aux',
+                  backend='frame-checker', detail='%d guarded by `X.element == "H"`, %d not' % (guarded_n, len(unguarded))))
+    # one obligation per unguarded site, so that a known finding names its site and a new site is reported
+    for site in sorted(set(unguarded)):
+        pr.add(Ground('BO(property form)[%s]: outside the hetero-atom typing, `X.bonded_atoms[k]` is taken only of a hydrogen (guard '
+                      '`X.element == "H"`) - never of an atom whose bond-list order depends on the pose' % site, False, kind='top',
+                      backend='frame-checker', detail='unguarded site ' + site,
+                      replay=ARG_ORDER_REPLAY % {'verif': os.path.dirname(os.path.dirname(os.path.abspath(__file__)))}))
+
 
 CHAIN_BREAK_REPLAY = r'''
 import sys, logging
@@ -351,7 +394,11 @@ def run(pr, repo):
     pr.assumptions += ['A-REAL: (x+t)-(y+t) == x-y holds over the reals; in floats the last ulp may differ (the property restricts '
                        'inputs to the 0.001 grid, arithmetic is still floating point): bounded monitor',
                        'composition step: every numeric result is computed from the leaves above (frame census)',
-                       'hetero groups: rotamer of a terminal hydrogen is frame dependent by design (excluded by the property)']
+                       'hetero groups: rotamer of a terminal hydrogen is frame dependent by design (excluded by the property)',
+                       'bond-list order: the census BO classifies the `bonded_atoms[k]` sites of the interaction code only; how far the '
+                       'hydrogen placement (propka.protonate) and the hetero-atom typing (propka.ligand) depend on the order of a bond '
+                       'list is not classified (C17 proves placement equivariant for a FIXED list order; the pose monitor runs real '
+                       'structures)']
     bounded(pr)
 
 
